@@ -7,9 +7,22 @@ theorem Kind.toNat_inj (a b : Kind) (h : a.toNat = b.toNat) : a = b := by
 theorem ibeq_comm (a b : Int) : (a == b) = (b == a) := by
   rw [Bool.eq_iff_iff]; simp only [beq_iff_eq]; exact eq_comm
 
-/-- every arm that can be selected on the diagonal of the table is symmetric in its two operands -/
-theorem evalAction_diag_symm (k : Kind) (u1 u2 : Base) :
+/-- `BarrierTransition::depends` is symmetric on two transitions of the same kind (the diagonal cell
+BARRIER_ASYNC_LOCK × BARRIER_ASYNC_LOCK selects it since the LOCK/LOCK repair).  It is NOT symmetric on arbitrary
+operands (only `o` is tested for being a barrier transition), hence the hypothesis. -/
+theorem barrierDepends_symm_of_kind_eq (u1 u2 : Base) (h : u1.kind = u2.kind) :
+    barrierDepends u1 u2 = barrierDepends u2 u1 := by
+  unfold barrierDepends
+  rw [h]
+  by_cases hb : u1.bar = u2.bar
+  · simp [hb]
+  · have hb' : ¬ u2.bar = u1.bar := fun e => hb e.symm
+    simp [hb, hb']
+
+/-- every arm that can be selected on the diagonal of the table is symmetric in its two operands (of that kind) -/
+theorem evalAction_diag_symm (k : Kind) (u1 u2 : Base) (h1 : u1.kind = k) (h2 : u2.kind = k) :
     evalAction (lut k k) u1 u2 = evalAction (lut k k) u2 u1 := by
+  have hk : u1.kind = u2.kind := h1.trans h2.symm
   cases k <;> simp only [lut, lutRow_RANDOM, lutRow_ACTOR_JOIN, lutRow_ACTOR_SLEEP, lutRow_ACTOR_CREATE,
     lutRow_ACTOR_EXIT, lutRow_TESTANY, lutRow_WAITANY, lutRow_BARRIER_ASYNC_LOCK, lutRow_BARRIER_WAIT,
     lutRow_COMM_ASYNC_RECV, lutRow_COMM_ASYNC_SEND, lutRow_COMM_IPROBE, lutRow_COMM_TEST, lutRow_COMM_WAIT,
@@ -19,7 +32,7 @@ theorem evalAction_diag_symm (k : Kind) (u1 u2 : Base) :
     lutRow_CONDVAR_NOMC, lutRow_UNKNOWN, evalAction, baseVirtualDepends]
   all_goals first
     | rfl
-    | (congr 1; first | exact ibeq_comm _ _ | exact Bool.or_comm _ _)
+    | (congr 1; first | exact ibeq_comm _ _ | exact Bool.or_comm _ _ | exact barrierDepends_symm_of_kind_eq _ _ hk)
 
 theorem dependsBase_symm (u1 u2 : Base) : dependsBase u1 u2 = dependsBase u2 u1 := by
   unfold dependsBase
@@ -31,6 +44,6 @@ theorem dependsBase_symm (u1 u2 : Base) : dependsBase u1 u2 = dependsBase u2 u1 
     · have : u1.kind = u2.kind := Kind.toNat_inj _ _ (by omega)
       simp only [h1, h2, if_false]
       rw [this]
-      exact evalAction_diag_symm _ _ _
+      exact evalAction_diag_symm _ _ _ this rfl
 
 end SgVerif.C39
